@@ -76,6 +76,15 @@ CLAIMED.update({
          T4 + " Known finding R5 (recycled connection ids) kept out of the main campaign by construction and probed.", "§5 C14"),
 })
 
+CLAIMED.update({
+ "C19": (E4, MB + "; admission model and live-connection invariants after every turn)",
+         "Router-level part of the property: connect / disconnect / link-failure / takeover histories by 2-6 clients (some with ids containing + $ # /) against max_connections 1..4: after every router turn live client ids are pairwise distinct, live connections <= max_connections, a connection attempt is registered iff its id is valid and a slot is free after a takeover removed the older connection, session_present follows the session rule. CONNECT validation / authentication (first sentence) is covered by the E5 engine, being merged.",
+         T4 + " Known finding R5 kept out by construction.", "§5 C19"),
+ "C20": (E4, MB + "; every drained notification encoded with the subscriber's protocol and decoded with rumqttc)",
+         "Router-level part: mixed v4/v5 clients, v5 publishes with every subset of the publish properties, subscription ids, broker topic aliases, all ack kinds and Disconnect notifications: every notification must be written by V4/V5 without error or panic and decode in rumqttc of that version to the same topic/payload, publisher properties preserved towards v5; the C01 delivery oracle applies. The end-to-end variant through two per-connection tasks is covered by the E5 engine, being merged.",
+         T4, "§5 C20"),
+})
+
 NOT_YET = "check not built yet in this revision of /verif (under construction; see DESIGN.md §5 for the planned generator and oracle)"
 
 def main():
@@ -110,7 +119,7 @@ def main():
             {"name": "E3 commitlog", "path": "harness/src/commitlog.rs", "serves_properties": ["C13"], "kind_free_text": "append-history model + op interpreter + proptest + short-sequence enumerator"},
             {"name": "E1 codec", "path": "harness/src/codec/", "serves_properties": ["C04", "C05"], "kind_free_text": "neutral packet model, generators, 4 codec adapters, reference framer/encoder/decoder, chunked stream drivers"},
             {"name": "E6 clientstate", "path": "harness/src/clientstate/", "serves_properties": ["C02", "C07", "C10", "C11"], "kind_free_text": "drivers for rumqttc MqttState v4/v5, reference model of accepted publishes, op interpreter"},
-            {"name": "E4 brokersim", "path": "harness/src/brokersim/", "serves_properties": ["C01", "C03", "C06", "C08", "C09", "C14", "C15", "C16", "C17"], "kind_free_text": "deterministic single-threaded driver of the real Router (hooks H1/H2/H4), simulated clients, reference broker model, proptest histories"},
+            {"name": "E4 brokersim", "path": "harness/src/brokersim/", "serves_properties": ["C01", "C03", "C06", "C08", "C09", "C14", "C15", "C16", "C17", "C19", "C20"], "kind_free_text": "deterministic single-threaded driver of the real Router (hooks H1/H2/H4), simulated clients, reference broker model, proptest histories"},
         ],
         "checks": checks,
         "notes": "All checks are `./check <id>`: it rebuilds /verif/harness (path deps on /repo) and runs target/verif/vcheck. exit 0 held / 1 VIOLATION / 2 inconclusive. Known findings: KNOWN_FINDINGS.txt.",
